@@ -2716,7 +2716,8 @@ class TLSConnection(TLSRecordLayer):
             serverCertChain = None
         srpUsername = None
         serverName = None
-        if clientHello.srp_username:
+        if clientHello.srp_username and \
+                cipherSuite in CipherSuite.srpAllSuites:
             srpUsername = clientHello.srp_username.decode("utf-8")
         if clientHello.server_name:
             serverName = clientHello.server_name.decode("utf-8")
